@@ -519,7 +519,9 @@ class Sequence:
 
                 # Check if we reached the end of the sequence
                 if len(split_up) > 1:
-                    tracks_synchronised = False
+                    # A remainder without any duration (events on the final tick) does not warrant another bar
+                    if split_up[1].get_sequence_duration_relation() > 0:
+                        tracks_synchronised = False
                     sequences[i] = split_up[1]
                 # Fill with placeholder empty sequence
                 else:
